@@ -41,13 +41,15 @@ def evaluate(name, do_tests=True):
             t = sh(["timeout", "1500", "/venv/bin/python", "-m", "pytest", "-q", "-p", "no:cacheprovider",
                     "--timeout=900", "tests"], env=env, cwd=wt)
             res["repo_tests"] = (t.stdout.strip().splitlines() or ["?"])[-1]
-        checks = meta.get("also_check", [])
+        # "decided_by": the change was written for `prop` but touches behaviour another listed property states
+        dec = meta.get("decided_by", prop)
+        checks = meta.get("also_check", []) + ([dec] if dec != prop else [])
         out = {}
         for p in [prop] + checks:
             c = sh([os.path.join(HERE, "check"), p, "--tier", "quick"], env=dict(os.environ, VERIF_REPO=wt))
             out[p] = {"exit": c.returncode, "kinds": sorted(set(re.findall(r"^  kind=(\S+)", c.stdout, re.M)))[:8]}
         res["checks"] = out
-        res["caught"] = out[prop]["exit"] == 1
+        res["caught"] = out[dec]["exit"] == 1
     finally:
         sh(["git", "-C", "/repo", "worktree", "remove", "--force", wt])
     meta["evaluation"] = res
